@@ -116,6 +116,9 @@ func (g *genCfg) pick(rng *rand.Rand, o, d *Obj) (Call, string) {
 	if g.fams["transfer"] {
 		menu = append(menu, "Transfer", "Transfer", "DstPush", "DstPop", "DstRonly", "DstNnest")
 	}
+	if g.fams["marshal"] {
+		menu = append(menu, "Marshal")
+	}
 	if g.fams["settings"] {
 		menu = append(menu, "SetID", "SetCategory", "SetDelimiter", "SetSymbol", "SetEncap")
 	}
@@ -194,6 +197,16 @@ func (g *genCfg) pick(rng *rand.Rand, o, d *Obj) (Call, string) {
 			return Call{"op": "SetOpt", "f": "ronly", "m": "toggle"}, "dst"
 		case "DstNnest":
 			return Call{"op": "SetOpt", "f": "nnest", "m": "toggle"}, "dst"
+		case "Marshal":
+			if L+1 > g.maxLen {
+				continue
+			}
+			n := rng.Intn(3)
+			xs := []any{}
+			for i := 0; i < n; i++ {
+				xs = append(xs, g.val(rng, true))
+			}
+			return Call{"op": "Marshal", "kind": allKinds[rng.Intn(5)], "xs": xs}, "st"
 		case "SetID":
 			return Call{"op": "SetID", "v": []string{"", "x", "some id", "Y_1"}[rng.Intn(4)]}, "st"
 		case "SetCategory":
